@@ -1,6 +1,7 @@
 //! E4 `nodesim`: whole `network::Network` nodes (accept loop, preface, noise, handshakes, pools,
 //! mux, RPCs) over the simulated TCP seam (hook H2), with adversaries built from raw pieces.
 pub mod admission;
+pub mod sync;
 
 use std::rc::Rc;
 
@@ -11,6 +12,10 @@ use crate::{
 };
 
 pub fn run_case(mode: &str, seed: u64, keep_log: bool) -> (CaseResult, Vec<String>) {
+    crate::kit::entropy::isolated(seed, || run_case_inner(mode, seed, keep_log))
+}
+
+fn run_case_inner(mode: &str, seed: u64, keep_log: bool) -> (CaseResult, Vec<String>) {
     let mut rng = kit::stream(seed, "node-policy");
     let sched = Rc::new(Sched::new(seed, policy_from(&mut rng), false));
     kit::panics::take();
@@ -18,6 +23,7 @@ pub fn run_case(mode: &str, seed: u64, keep_log: bool) -> (CaseResult, Vec<Strin
     let ((mut res, log), rt) = run_sim(seed, sched.clone(), move |sched| async move {
         match mode2.as_str() {
             "admission" => admission::run(seed, sched, keep_log).await,
+            "sync" => sync::run(seed, sched, keep_log).await,
             m => panic!("unknown node mode {m}"),
         }
     });
